@@ -12,6 +12,15 @@ let handler r =
       put_res (fun ps ->
           if op = "eigensystem" then put_fl (List.map fst ps);
           put_i (List.length ps); List.iter (fun (_, v) -> put_fl v) ps) (eigensystem fops m)
+  | "history" -> let m = table r in
+      (* the model is a pure function of the matrix: every call of the sequence sees the same argument *)
+      (match eigensystem fops m, eigenvalues fops m, qr_decomposition fops m with
+       | Ok ps, Ok evs, Ok (q, rr) ->
+           let put_sys () = put_fl (List.map fst ps); put_i (List.length ps); List.iter (fun (_, v) -> put_fl v) ps in
+           put_sys (); put_i (List.length ps); List.iter (fun (_, v) -> put_fl v) ps; put_fl evs; put_mat q; put_mat rr; put_sys (); put_i 1
+       | Fuel, _, _ | _, Fuel, _ | _, _, Fuel -> put_w "FUEL"
+       | OOB, _, _ | _, OOB, _ | _, _, OOB -> put_w "OOB"
+       | _ -> put_w "EXIT")
   | "rayleigh" -> let m = table r in let ev = num r in
       put_res (fun (e, v) -> put_f e; put_fl v) (find_eigenvector_rayleigh fops m ev)
   | "det" -> let m = table r in put_f (determinant fops (nrows m) m)
